@@ -2,6 +2,7 @@
 import PdbVerif.Driver.Json
 import PdbVerif.Driver.GCommon
 import PdbVerif.Model.Fnat
+import PdbVerif.Model.SuperposeDb
 
 namespace Driver.ModelG
 open Lean Driver Driver.GCommon
@@ -24,6 +25,41 @@ def op (name : String) (j : Json) : Except String (Option Json) := do
     let ls ← jLines j "lines"
     let c1 := (← jStr j "chain1").toList; let c2 := (← jStr j "chain2").toList
     pure (some (exceptJ natJ (Model.Fnat.clashesFile ls c1 c2)))
+  | "superpose" =>
+    let mob ← jAtoms j "mobile"; let tar ← jAtoms j "target"
+    let sel ← jSel j "sel"
+    let ob ← jBool j "only_backbone"; let ex ← jBool j "export"
+    -- what NumPy's kernel returned in the real run: a matrix, an exception, or nothing (never called)
+    let kj ← jVal j "kernel"
+    let kernel : List Model.SupDb.V → List Model.SupDb.V → Except Py.Err (Py.Mat3 Rat) ←
+      match kj.getObjVal? "R" with
+      | .ok _ => do let R ← mat3OfList (← jRatList kj "R"); pure (fun _ _ => .ok R)
+      | .error _ =>
+        match kj.getObjVal? "err" with
+        | .ok (.str "ERR:ValueError") => pure (fun _ _ => .error Py.Err.valueError)
+        | .ok (.str "ERR:TypeError") => pure (fun _ _ => .error Py.Err.typeError)
+        | _ => pure (fun _ _ => .error (Py.Err.unmodelled "kernel not called in the real run"))
+    let args : Model.SupDb.Args := { onlyBackbone := ob, doExport := ex, nameGiven := sel.nameGiven, sel := sel.test }
+    let mdb : Model.SupDb.Db := { rows := mob, pdbfile := jOptStr j "mobile_file" }
+    let tdb : Model.SupDb.Db := { rows := tar, pdbfile := jOptStr j "target_file" }
+    let res := Model.SupDb.superpose kernel mdb tdb args
+    -- which pairing route was taken, how many pairs, and whether the text round trip kept the selected atoms' identities
+    let info : Json := match Model.SupDb.selection args with
+      | .error _ => Json.null
+      | .ok p =>
+        let sm := mob.filter p; let st := tar.filter p
+        let positional := decide (sm.map Model.SupDb.atomId = st.map Model.SupDb.atomId)
+        let stable (t : List Py.Atom) : Bool := match Model.SupDb.reexportSel p t with
+          | .ok u => decide (u.map Model.SupDb.atomId = (t.filter p).map Model.SupDb.atomId)
+          | .error _ => false
+        let npairs : Json := match Model.SupDb.matched mob tar p with
+          | .ok m => natJ m.1.length
+          | .error e => errJ e
+        Json.mkObj [("route", .str (if positional then "positional" else "intersection")), ("pairs", npairs),
+                    ("text_stable", if positional then Json.null else boolJ (stable mob && stable tar))]
+    pure (some (Json.mkObj [("info", info), ("result", exceptJ (fun (o : Model.SupDb.Out) => Json.mkObj [
+      ("mobile", atomsJ o.mobile), ("target", atomsJ o.target),
+      ("files", Json.arr (o.files.map (fun f => Json.arr #[strJ f.1, Json.arr (f.2.map strJ).toArray])).toArray)]) res)]))
   | _ => pure none
 
 end Driver.ModelG
